@@ -12,7 +12,7 @@ from simkit.simtime import CLOCK, EPOCH
 
 PROP = "C04"
 LEVEL = "exploration"
-BUDGET_S = {"quick": 420, "thorough": 3 * 3600}
+BUDGET_S = {"quick": 420, "thorough": 1800}
 CHUNK = 10
 RULE = (
     "each run = one SB2.0 (unsigned / signed) or SB2.1 image built through the Python API: 1..4 sections with arbitrary "
